@@ -10,7 +10,14 @@ use std::process::Command;
 use xml_schema_generator::into_struct;
 
 const HEADER: &str = "use serde::{Deserialize, Serialize};\n\n";
-const SENTINEL: &[u8] = b"// old content that must survive a failing run\n";
+/// the old content of an existing output file: longer than any rendering, so that a missing truncation shows
+fn sentinel() -> Vec<u8> {
+    let mut v = Vec::new();
+    for i in 0..400 {
+        v.extend_from_slice(format!("// line {:04} of the old content that must survive a failing run and vanish in a successful one\n", i).as_bytes());
+    }
+    v
+}
 
 fn setup_input(dir: &Path, kind: &str, valid_doc: &[u8]) -> PathBuf {
     let p = dir.join("in.xml");
@@ -31,7 +38,7 @@ fn setup_output(dir: &Path, kind: &str) -> Option<PathBuf> {
         "newfile" => Some(dir.join("out.rs")),
         "existing" => {
             let p = dir.join("out.rs");
-            std::fs::write(&p, SENTINEL).unwrap();
+            std::fs::write(&p, sentinel()).unwrap();
             Some(p)
         }
         "nodir" => Some(dir.join("no_such_dir").join("out.rs")),
@@ -52,7 +59,7 @@ fn file_state(p: &Option<PathBuf>, rendered: &Option<String>) -> String {
             }
             match std::fs::read(p) {
                 Err(_) => "absent".into(),
-                Ok(b) if b == SENTINEL => "old".into(),
+                Ok(b) if b == sentinel() => "old".into(),
                 Ok(b) if b.is_empty() => "truncated".into(),
                 Ok(b) => match rendered {
                     Some(r) if b == format!("{}{}", HEADER, r).as_bytes() => "header+rendering".into(),
